@@ -1,6 +1,6 @@
 -------------------------- MODULE MC_ProtoLayout --------------------------
 EXTENDS ProtoLayout
-MCCounts == {0, 1, 3, 11}
+MCCounts == {0, 1, 3, 11, 64}
 MCCountsT == {0, 1, 2, 5, 16, 64}
 MCStrLens == {0, 1, 2, 3, 25, 26, 27, 30, 63, 64, 126}
 MCStrLensT == 0 .. 126
